@@ -48,7 +48,24 @@ def mutate_tree(P, rng, n):
             return P.LiteralNode(n.value, n.offset + 1, n.length)
         return P.LiteralNode(n.value, n.offset, n.length + 1)
     ch = [clone(P, c) for c in n.children]
-    k = rng.randrange(4)
+    k = rng.randrange(5)
+    if k == 4:
+        # same names and leaves in the same document order, other SHAPE: a child becomes the last child of its left sibling,
+        # or the children of a child are lifted into the parent
+        js = [j for j in range(1, len(ch)) if not isinstance(ch[j - 1], P.LiteralNode)]
+        ls = [j for j in range(len(ch)) if not isinstance(ch[j], P.LiteralNode) and ch[j].children]
+        if js and (rng.random() < 0.5 or not ls):
+            j = rng.choice(js)
+            ch[j - 1] = P.Node(ch[j - 1].name, *ch[j - 1].children, ch[j])
+            del ch[j]
+            return P.Node(n.name, *ch)
+        if ls:
+            j = rng.choice(ls)
+            inner = ch[j]
+            cut = rng.randrange(len(inner.children))
+            ch[j:j + 1] = [P.Node(inner.name, *inner.children[:cut])] + list(inner.children[cut:])
+            return P.Node(n.name, *ch)
+        k = rng.randrange(4)
     if k == 0 or not ch:
         if rng.random() < 0.5 or not ch:
             return P.Node(n.name.swapcase() if n.name.swapcase() != n.name else n.name + "x", *ch)
@@ -94,6 +111,13 @@ def run(ctx):
         ns = {}
         for k in keys:
             ns["visit_" + k] = (lambda kk: (lambda self, node: (called.append((kk, node)), "ret:" + kk)[1]))(k)
+        # attributes spelled like the rule name in its ORIGINAL letter case (visit_ALPHA, visit_IPv4address) are not "the
+        # method named after the lower-cased name": they must never be invoked
+        if rng.random() < 0.5:
+            for nm in sorted(variants):
+                raw = nm.replace("-", "_")
+                if raw != raw.lower():
+                    ns["visit_" + raw] = (lambda kk: (lambda self, node: (called.append(("DECOY:" + kk, node)), "decoy")[1]))(raw)
         # how the handlers reach the visitor: declared on a direct subclass, inherited from a parent visitor class,
         # split over two levels, or attached to the class after the class statement (all are "a visitor's method")
         shape = rng.randrange(4)
@@ -116,7 +140,9 @@ def run(ctx):
                     ret = v.visit(node) if rng.random() < 0.5 else v(node)
                 except Exception as e:  # noqa
                     ret = "exc:" + type(e).__name__
-                if called:
+                if called and called[0][0].startswith("DECOY:"):
+                    got = "invoked visit_" + called[0][0][6:]
+                elif called:
                     got = "handler %d" % keys.index(called[0][0])
                     if called[0][1] is not node or ret != "ret:" + called[0][0] or len(called) != 1:
                         got += " WRONG-NODE-OR-RESULT"
@@ -175,7 +201,7 @@ def run(ctx):
         "evaluations": len(expect) + len(expect2),
         "distinct_nontrivial": hits + (len(expect2) - eqs),
         "rule": "(a) every bundled/core/meta rule name and random names in 4 case variants x generated visitor classes (handler present / absent / only for another name / literal) "
-                "x Node and LiteralNode; (b) random tree pairs: clones, single-field mutants (text, offset, length, name case, child added/dropped, node-vs-leaf), unrelated; "
+                "x Node and LiteralNode; (b) random tree pairs: clones, single-field mutants (text, offset, length, name case, child added/dropped, node-vs-leaf), re-nested trees (same names and leaves in document order, other shape), unrelated; visitor classes also carry attributes spelled in the rule name's original letter case; "
                 "non-trivial = a handler was invoked, or the trees were unequal",
         "samples": [{"name": expect[0][0], "handlers": expect[0][1], "outcome": expect[0][2]}, {"pair": lines[0], "outcome": expect2[0][2]}],
         "names": len(names), "dispatch_cases": len(expect), "equality_cases": len(expect2), "equal_pairs": eqs,
